@@ -17,8 +17,8 @@ MANIFEST = {
 }
 
 RULE = ("topo: every digraph on <=3 (quick) / <=4 (thorough) labelled nodes incl. self-loops x every non-empty request set, "
-        "plus random graphs up to 12 nodes, each evaluated under 3 fresh RandomState keys; kahn: every dependency multiset "
-        "drawn from those digraphs plus random multigraphs with duplicate edges. A case is non-trivial when it has at least "
+        "plus random graphs up to 12 nodes, each evaluated under 3 fresh RandomState keys, plus chains / ladders / trees / fans / large cycles of 40-200 (thorough: -500) nodes; kahn: every dependency multiset "
+        "drawn from those digraphs, the same with every edge doubled and tripled, random multigraphs with duplicate edges, and long chains / ladders. A case is non-trivial when it has at least "
         "one edge; distinct = distinct (graph, request) pairs")
 TRUSTED = ["Spec/P20.v boolean checkers are the run-time oracle applied to the implementation's answers; proved equivalent to the Prop statements (C20_topo_oracle_exact, C20_kahn_oracle_exact)"]
 ASSUMPTIONS = ["HashSet iteration order of an unmodified set is stable between two traversals (used to feed the observed order to the model)", "the implementation iterates each set either in its hash order or in sorted name order; any other deterministic order would show as a correspondence break (no-failing-input-found), not as a property violation"]
@@ -58,6 +58,21 @@ def topo_cases(tier, rng):
         if rng.random() < 0.2:
             req.append(n + rng.randint(0, 2))
         cases.append({"adj": adj_of(n, edges), "req": sorted(set(req)), "reps": 3, "n": n})
+    # beyond the small scope: long chains, ladders, deep trees and large cycles (the theorems are
+    # unbounded; a depth guard or a quadratic blow-up only shows at sizes like these)
+    sizes = [40, 70, 130] if tier == "quick" else [40, 66, 70, 129, 130, 200, 300, 500]
+    for n in sizes:
+        chain = [(i, i + 1) for i in range(n - 1)]
+        shapes = {
+            "chain": chain,
+            "chain+back": chain + [(n - 1, 0)],
+            "ladder": chain + [(i, i + 2) for i in range(n - 2)],
+            "tree": [(i, 2 * i + 1) for i in range(n) if 2 * i + 1 < n] + [(i, 2 * i + 2) for i in range(n) if 2 * i + 2 < n],
+            "fan": [(0, i) for i in range(1, n)] + [(i, n - 1) for i in range(1, n - 1)],
+        }
+        for name, edges in shapes.items():
+            for req in ([0], list(range(0, n, 7))):
+                cases.append({"adj": adj_of(n, edges), "req": req, "reps": 2, "n": n, "big": name})
     for i, c in enumerate(cases):
         c["id"] = i
     return cases
@@ -85,6 +100,17 @@ def kahn_cases(tier, rng):
                 deps.append([a, b])          # duplicate dependency (Vec keeps both)
         extra = [n + i for i in range(rng.randint(0, 2))]
         cases.append({"nodes": list(range(n)) + extra, "deps": deps, "reps": 2})
+    # every edge doubled / tripled (the dependency list is a Vec: the same pair may be recorded several
+    # times), on all DAGs and some cyclic graphs of the small scope
+    for edges in all_graphs(3):
+        for mult in (2, 3):
+            cases.append({"nodes": list(range(3)), "deps": [list(e) for e in edges for _ in range(mult)], "reps": 1})
+    # long chains and ladders
+    for n in ([60, 150] if tier == "quick" else [60, 150, 400]):
+        chain = [[i, i + 1] for i in range(n - 1)]
+        cases.append({"nodes": list(range(n)), "deps": chain, "reps": 1})
+        cases.append({"nodes": list(range(n)), "deps": chain + [[n - 1, 0]], "reps": 1})
+        cases.append({"nodes": list(range(n)), "deps": chain + [[i, i + 2] for i in range(n - 2)] + chain, "reps": 1})
     for i, c in enumerate(cases):
         c["id"] = i
     return cases
